@@ -975,6 +975,8 @@ class _Simu(_IObserver, _params.Updatable, ABC):
 
         if isinstance(mesh, str):
             mesh = self.__Load_mesh(mesh)
+            # a mesh read back from the disk is a new object: follow its changes as the mesh setter does
+            mesh._Add_observer(self)
 
         self.__mesh = mesh
 
